@@ -248,35 +248,42 @@ pub fn check_ix(c: &IxCase, l: &mut Local) -> Result<(), String> {
     let (ta, tb) = (h.w.user_token_existing(owner, &pool.mint_a.key), h.w.user_token_existing(owner, &pool.mint_b.key));
     let v2 = c.v2 || h.needs_v2();
     let bal = |w: &World| (w.balance(&ta), w.balance(&tb), w.balance(&pool.vault_a), w.balance(&pool.vault_b));
+    // transfer-fee mints: the caller's maximum is compared with the fee-INCLUDED amount requested from them, the caller's minimum with
+    // the fee-EXCLUDED amount they receive (C16); without a fee both are the curve amounts
+    let (tfa, tfb) = (pool.mint_a.transfer_fee, pool.mint_b.transfer_fee);
+    let inc = |tf, c: u64| super::c16::smallest_included(tf, c);
+    let exc = |tf, r: u64| r - super::c16::fee_of(tf, r);
     // ---- increase with token maxima exactly at / one below the cost
     let (ca, cb) = position_amounts(c.liquidity, st.sqrt_price, pl, pu, true);
     if let (Some(ca), Some(cb)) = (ca.to_u64(), cb.to_u64()) {
         let (a0, b0, va0, vb0) = bal(&h.w);
-        if ca <= a0 && cb <= b0 && c.liquidity > 0 {
-            let mut w = h.w.clone();
-            let o = w.exec(&w.ix_increase(p, c.liquidity, ca, cb, v2));
-            if !o.ok() {
-                if !OVERFLOW_CODES.contains(&o.code().unwrap()) {
-                    return Err(format!("increase of L={} with maxima equal to the exact cost ({ca}, {cb}) failed: {:?} {:?}", c.liquidity, o.result, o.logs.last()));
-                }
-                l.count("increase_overflow_rejected");
-            } else {
-                let (a1, b1, va1, vb1) = bal(&w);
-                if (a0 - a1, b0 - b1, va1 - va0, vb1 - vb0) != (ca, cb, ca, cb) {
-                    return Err(format!("increase moved ({}, {}) but the exact cost rounded up is ({ca}, {cb})", a0 - a1, b0 - b1));
-                }
-                l.count("increase_at_cost_ok");
-                for (which, ma, mb) in [("A", ca.wrapping_sub(1), cb), ("B", ca, cb.wrapping_sub(1))] {
-                    if (which == "A" && ca == 0) || (which == "B" && cb == 0) {
-                        continue;
+        if let (Some(ia), Some(ib)) = (inc(tfa, ca), inc(tfb, cb)) {
+            if ia <= a0 && ib <= b0 && c.liquidity > 0 {
+                let mut w = h.w.clone();
+                let o = w.exec(&w.ix_increase(p, c.liquidity, ia, ib, v2));
+                if !o.ok() {
+                    if !OVERFLOW_CODES.contains(&o.code().unwrap()) {
+                        return Err(format!("increase of L={} with maxima equal to the exact cost ({ca}, {cb}) [requested from the owner: ({ia}, {ib})] failed: {:?} {:?}", c.liquidity, o.result, o.logs.last()));
                     }
-                    let mut w = h.w.clone();
-                    if w.exec(&w.ix_increase(p, c.liquidity, ma, mb, v2)).ok() {
-                        return Err(format!("increase accepted although the cost exceeds the caller's maximum of token {which} by one"));
+                    l.count("increase_overflow_rejected");
+                } else {
+                    let (a1, b1, va1, vb1) = bal(&w);
+                    if (a0 - a1, b0 - b1, va1 - va0, vb1 - vb0) != (ia, ib, ca, cb) {
+                        return Err(format!("increase took ({}, {}) from the owner and gave ({}, {}) to the vaults; the exact cost rounded up is ({ca}, {cb}), requested incl. transfer fee ({ia}, {ib})", a0 - a1, b0 - b1, va1 - va0, vb1 - vb0));
                     }
-                    l.count("increase_below_cost_rejected");
+                    l.count("increase_at_cost_ok");
+                    for (which, ma, mb) in [("A", ia.wrapping_sub(1), ib), ("B", ia, ib.wrapping_sub(1))] {
+                        if (which == "A" && ca == 0) || (which == "B" && cb == 0) {
+                            continue;
+                        }
+                        let mut w = h.w.clone();
+                        if w.exec(&w.ix_increase(p, c.liquidity, ma, mb, v2)).ok() {
+                            return Err(format!("increase accepted although the cost exceeds the caller's maximum of token {which} by one"));
+                        }
+                        l.count("increase_below_cost_rejected");
+                    }
+                    l.nontrivial(hash_of(&(hash_of(c), 1u8)));
                 }
-                l.nontrivial(hash_of(&(hash_of(c), 1u8)));
             }
         }
     }
@@ -287,19 +294,20 @@ pub fn check_ix(c: &IxCase, l: &mut Local) -> Result<(), String> {
         let (ra, rb) = position_amounts(dl, st.sqrt_price, pl, pu, false);
         if let (Some(ra), Some(rb)) = (ra.to_u64(), rb.to_u64()) {
             let (a0, b0, va0, vb0) = bal(&h.w);
+            let (ea, eb) = (exc(tfa, ra), exc(tfb, rb));
             let mut w = h.w.clone();
-            let o = w.exec(&w.ix_decrease(p, dl, ra, rb, v2));
+            let o = w.exec(&w.ix_decrease(p, dl, ea, eb, v2));
             if !o.ok() {
                 if !OVERFLOW_CODES.contains(&o.code().unwrap()) {
-                    return Err(format!("decrease of L={dl} with minima equal to the exact return ({ra}, {rb}) failed: {:?} {:?}", o.result, o.logs.last()));
+                    return Err(format!("decrease of L={dl} with minima equal to what the owner receives ({ea}, {eb}) of the exact return ({ra}, {rb}) failed: {:?} {:?}", o.result, o.logs.last()));
                 }
             } else {
                 let (a1, b1, va1, vb1) = bal(&w);
-                if (a1 - a0, b1 - b0, va0 - va1, vb0 - vb1) != (ra, rb, ra, rb) {
-                    return Err(format!("decrease returned ({}, {}) but the exact amount rounded down is ({ra}, {rb})", a1 - a0, b1 - b0));
+                if (a1 - a0, b1 - b0, va0 - va1, vb0 - vb1) != (ea, eb, ra, rb) {
+                    return Err(format!("decrease gave ({}, {}) to the owner and took ({}, {}) from the vaults; the exact amount rounded down is ({ra}, {rb}), net of transfer fee ({ea}, {eb})", a1 - a0, b1 - b0, va0 - va1, vb0 - vb1));
                 }
                 l.count("decrease_at_return_ok");
-                for (which, ma, mb) in [("A", ra.saturating_add(1), rb), ("B", ra, rb.saturating_add(1))] {
+                for (which, ma, mb) in [("A", ea.saturating_add(1), eb), ("B", ea, eb.saturating_add(1))] {
                     let mut w = h.w.clone();
                     if w.exec(&w.ix_decrease(p, dl, ma, mb, v2)).ok() {
                         return Err(format!("decrease accepted although it returns one unit less than the caller's minimum of token {which}"));
@@ -310,45 +318,53 @@ pub fn check_ix(c: &IxCase, l: &mut Local) -> Result<(), String> {
             }
         }
     }
-    // ---- by token amounts: adds exactly the largest fitting liquidity
-    {
-        let best = largest_liquidity(st.sqrt_price, pl, pu, c.max_a, c.max_b);
+    // ---- by token amounts: adds exactly the largest fitting liquidity.  Maxima: generated, and (second pass) exactly what the generated
+    //      liquidity costs incl. transfer fee, so that the request meets the caller's maximum with equality
+    let exact_maxima = match position_amounts(c.liquidity, st.sqrt_price, pl, pu, true) {
+        (a, b2) => a.to_u64().and_then(|x| inc(tfa, x)).zip(b2.to_u64().and_then(|x| inc(tfb, x))),
+    };
+    for (max_a, max_b) in [Some((c.max_a, c.max_b)), exact_maxima].into_iter().flatten() {
+        // the maxima bound what is requested from the owner incl. transfer fee: the curve amounts may use what is left after the fee
+        let best = largest_liquidity(st.sqrt_price, pl, pu, exc(tfa, max_a), exc(tfb, max_b));
         let (a0, b0, _, _) = bal(&h.w);
         let mut w = h.w.clone();
-        let o = w.exec(&w.ix_increase_by_amounts(p, c.max_a, c.max_b, MIN_SQRT_PRICE, MAX_SQRT_PRICE));
+        let o = w.exec(&w.ix_increase_by_amounts(p, max_a, max_b, MIN_SQRT_PRICE, MAX_SQRT_PRICE));
         if o.ok() {
             let after = w.position_state(p).map(|s| s.liquidity).unwrap_or(0);
             let added = after - cur;
             if BigUint::from(added) != best {
-                return Err(format!("by-token-amounts with maxima ({}, {}) added {added}, the largest fitting liquidity is {best}", c.max_a, c.max_b));
+                return Err(format!("by-token-amounts with maxima ({}, {}) added {added}, the largest fitting liquidity is {best}", max_a, max_b));
             }
             let (a1, b1, _, _) = bal(&w);
             let (ea, eb) = position_amounts(added, st.sqrt_price, pl, pu, true);
-            if BigUint::from(a0 - a1) != ea || BigUint::from(b0 - b1) != eb {
-                return Err(format!("by-token-amounts moved ({}, {}), exact cost of the added liquidity is ({ea}, {eb})", a0 - a1, b0 - b1));
+            let want = (ea.to_u64().and_then(|x| inc(tfa, x)), eb.to_u64().and_then(|x| inc(tfb, x)));
+            if (Some(a0 - a1), Some(b0 - b1)) != want {
+                return Err(format!("by-token-amounts took ({}, {}) from the owner, exact cost of the added liquidity is ({ea}, {eb}), incl. transfer fee {want:?}", a0 - a1, b0 - b1));
             }
-            if a0 - a1 > c.max_a || b0 - b1 > c.max_b {
+            if a0 - a1 > max_a || b0 - b1 > max_b {
                 return Err("by-token-amounts took more than the caller's maximum".into());
             }
             l.count("by_amounts_ok");
             l.nontrivial(hash_of(&(hash_of(c), 3u8)));
             // price-bound slippage: a window that excludes the current price must be refused
             let mut w = h.w.clone();
-            if st.sqrt_price < MAX_SQRT_PRICE && w.exec(&w.ix_increase_by_amounts(p, c.max_a, c.max_b, st.sqrt_price + 1, MAX_SQRT_PRICE)).ok() {
+            if st.sqrt_price < MAX_SQRT_PRICE && w.exec(&w.ix_increase_by_amounts(p, max_a, max_b, st.sqrt_price + 1, MAX_SQRT_PRICE)).ok() {
                 return Err("by-token-amounts accepted although the price is below the caller's minimum price".into());
             }
             let mut w = h.w.clone();
-            if st.sqrt_price > MIN_SQRT_PRICE && w.exec(&w.ix_increase_by_amounts(p, c.max_a, c.max_b, MIN_SQRT_PRICE, st.sqrt_price - 1)).ok() {
+            if st.sqrt_price > MIN_SQRT_PRICE && w.exec(&w.ix_increase_by_amounts(p, max_a, max_b, MIN_SQRT_PRICE, st.sqrt_price - 1)).ok() {
                 return Err("by-token-amounts accepted although the price is above the caller's maximum price".into());
             }
         } else {
             let code = o.code().unwrap();
             if best.is_zero() {
                 l.count("by_amounts_zero_liquidity_rejected");
+            } else if code == 6017 {
+                return Err(format!("by-token-amounts with maxima ({max_a}, {max_b}) failed with TokenMaxExceeded although it chooses the liquidity itself (largest fitting: {best})"));
             } else if OVERFLOW_CODES.contains(&code) || code == 6059 {
                 l.count("by_amounts_rejected_overflow_or_funds");
             } else {
-                return Err(format!("by-token-amounts with maxima ({}, {}) failed with {code} although liquidity {best} fits", c.max_a, c.max_b));
+                return Err(format!("by-token-amounts with maxima ({}, {}) failed with {code} although liquidity {best} fits", max_a, max_b));
             }
         }
     }
@@ -492,11 +508,13 @@ fn decode_frozen(w: &World, info: &PosInfo) -> Option<bool> {
 }
 
 fn ix_case() -> BoxedStrategy<IxCase> {
-    (history_strategy(false, false, 16), any::<u16>(), liquidity_strategy(), any::<u16>(), gen::bits_u64(60), gen::bits_u64(60), any::<bool>(), prop_oneof![3 => Just(0u8), 1 => Just(1u8)])
-        .prop_map(|(mut hist, pos, liquidity, dec_frac, max_a, max_b, v2, mk)| {
-            hist.spec.mint_kind = mk;
-            IxCase { hist, pos, liquidity, dec_frac, max_a, max_b, v2 }
-        })
+    let plain = (history_strategy(false, false, 16), prop_oneof![3 => Just(0u8), 1 => Just(1u8)]).prop_map(|(mut h, mk)| {
+        h.spec.mint_kind = mk;
+        h
+    });
+    let hist = prop_oneof![3 => plain, 2 => with_fee_mints(history_strategy(false, false, 16))];
+    (hist, any::<u16>(), liquidity_strategy(), any::<u16>(), gen::bits_u64(60), gen::bits_u64(60), any::<bool>())
+        .prop_map(|(hist, pos, liquidity, dec_frac, max_a, max_b, v2)| IxCase { hist, pos, liquidity, dec_frac, max_a, max_b, v2 })
         .boxed()
 }
 
@@ -507,7 +525,7 @@ pub fn def() -> CheckDef {
                +-L of any magnitude up to 2^110 or (one in four) the exact inverse image of a token amount on a boundary of the u64 result type, token maxima of any magnitude) on BOTH implementations (Pinocchio through H1): amounts equal the price-based exact \
                amounts (A over [clamp(p),pu], B over [pl,clamp(p)]) rounded up for +L and down for -L, one-sidedness, round trip returns <= paid and loses <= 1 per \
                token, estimate == largest liquidity whose cost fits both maxima (bisection on BigUint).  Instruction level on states reached by generated \
-               histories: increase with token_max = cost succeeds and moves exactly the cost, cost-1 fails; decrease with token_min = return succeeds, return+1 \
+               histories (SPL, Token-2022 and transfer-fee / transfer-hook mints: maxima are compared with the fee-included request, minima with the fee-excluded receipt): increase with token_max = cost succeeds and moves exactly the cost, cost-1 fails; decrease with token_min = return succeeds, return+1 \
                fails; by-token-amounts adds exactly the largest fitting liquidity, respects the price window; reposition_liquidity_v2 (SPL and Token-2022 fee mints; new liquidity generated, equal to the old, or sized so that what the old range pays out just covers the new range): accepted with minima = what the old range returns (net of transfer fee) and maxima = what the new range costs (plus the fee on the net amount sent), owner's balances move by exactly the net amounts, each bound missed by one is refused.  Non-trivial (fn) = Ok with both tokens non-zero, or \
                shifted state, or L >= 2^64; (ix) = each boundary pair evaluated.",
         assumptions: vec!["H1 re-export hook for the Pinocchio copy", "nsvm runtime as in DESIGN.md §5"],
